@@ -1,7 +1,6 @@
 package main
 
 import (
-	"strings"
 
 	"github.com/z7zmey/php-parser/pkg/version"
 	"github.com/z7zmey/php-parser/verifmc/core"
@@ -32,7 +31,7 @@ func c05One(c *core.Ctx, cs srcCase) {
 func c05Run(c *core.Ctx) {
 	level := 3
 	if c.Thorough() {
-		level = 4
+		level = 5
 	}
 	multi := []string{"\n", " /* a\n b */ ", "\r\n//c\r\n"}
 	for _, fam := range []string{"php7", "php5"} {
@@ -55,7 +54,7 @@ func c05Run(c *core.Ctx) {
 				c05One(c, cs)
 				c.Sample(cs)
 			}
-			if c.Thorough() && strings.Count(it.Why, "child") < 2 {
+			if c.Thorough() {
 				forDeviations(it, true, true, func(src, why string) {
 					if c.Next() {
 						c05One(c, mkCase(src, f.V, why))
